@@ -7,8 +7,9 @@ Tie C (Float driver, tolerance 1e-9): the hand model (`smear`) AND the generated
 the real code on every case.  The Lean model (`Core/Smear.lean`) computes node
 coordinates, temporary lattice, normalisation, closest node, inside test, nearest node,
 accumulation and reset; the kernel values (scipy pdf, Gaussian or covariant) and
-`round(n_sigma*sigma/spacing)` are parameters, taken from the real code path on every case
-(the pdf calls of the real `add_particle_data` are recorded) and contract-checked here.
+`round(n_sigma*sigma/spacing)` are parameters which the harness computes itself (`kernel_tables`,
+`half_widths`) - independently of how the code under test evaluates the kernel; pdf calls the
+code is seen to make are only cross-checked against them.
 
 Every call is issued in one of nine equivalent documented call forms (documented order particle_data, sigma, quantity,
 kernel="gaussian", add=False - hard-coded from the property statement, not read off the code).  Besides single calls,
@@ -83,26 +84,52 @@ def quantity_value(p, quantity):
 
 
 class _Recorder:
-    """wraps `multivariate_normal` inside sparkx.Lattice3D and records every pdf value"""
+    """wraps `multivariate_normal` inside sparkx.Lattice3D and notes what every pdf call returns (scalar or batched).
+    Pure observation: it never changes or fails a call of the code under test; what it saw is only a cross-check of the
+    kernel table the harness computes itself (`kernel_tables`)."""
 
     def __init__(self, real):
         self.real = real
-        self.vals = []
+        self.vals = []          # all pdf values seen, flattened in call order
+        self.calls = 0
 
     def __call__(self, *a, **k):
         frozen = self.real(*a, **k)
         rec = self
 
         class F:
-            def pdf(self_, x):
-                r = frozen.pdf(x)
-                rec.vals.append(float(r))
+            def pdf(self_, *x, **kw):
+                r = frozen.pdf(*x, **kw)
+                try:
+                    rec.calls += 1
+                    rec.vals.extend(float(v) for v in np.asarray(r, dtype=float).ravel())
+                except Exception:
+                    rec.vals.append(None)
                 return r
 
             def __getattr__(self_, name):
                 return getattr(frozen, name)
 
         return F()
+
+
+def axis_spacing(ax):
+    xs = np.linspace(ax[0], ax[1], ax[2])
+    return float(xs[1] - xs[0])
+
+
+def half_widths(case):
+    """round(n_sigma * sigma / spacing) per axis, computed by the harness from the case itself (Python round on the numpy
+    double, as documented); None where that is not a number (invalid sigma)"""
+    lat = case["lattice"]
+    ns = lat.get("n_sigma") or [3, 3, 3]
+    out = []
+    for ax, s_ in zip(lat["axes"], ns):
+        try:
+            out.append(round(np.float64(float(s_)) * case["sigma"] / np.float64(axis_spacing(ax))))
+        except (ValueError, OverflowError, TypeError):
+            out.append(None)
+    return out
 
 
 # the documented call: add_particle_data(particle_data, sigma, quantity, kernel="gaussian", add=False)
@@ -167,13 +194,7 @@ def run_real(case, record=True, lattice=None):
     finally:
         if record:
             L3.multivariate_normal = rec.real
-    nums = []
-    for ax, ns in (("x", lat.n_sigma_x_), ("y", lat.n_sigma_y_), ("z", lat.n_sigma_z_)):
-        sp = getattr(lat, f"spacing_{ax}_")
-        try:
-            nums.append(round(ns * case["sigma"] / sp))
-        except (ValueError, OverflowError, TypeError):
-            nums.append(None)       # invalid sigma: no temporary lattice
+    nums = half_widths(case)
     def _num(p, a):
         try:
             return float(getattr(p, a))
@@ -184,32 +205,42 @@ def run_real(case, record=True, lattice=None):
     except KeyError:
         values = None               # invalid quantity name
     return dict(status=status, grid=[float(v) for v in lat.grid_.flatten()], V=float(lat.cell_volume_),
-                kvals=rec.vals, nums=nums, lattice=lat, values=values,
+                kvals=rec.vals, pdf_calls=rec.calls, nums=nums, lattice=lat, values=values,
                 seen=[[_num(p, a) for a in GEN_ATTRS] for p in parts])
 
 
-def recompute_kernel(lat, d, sigma, kernel, nums):
-    """the kernel values by the formula of the code (fallback when the pdf calls could not be recorded)"""
+def kernel_table(case, d, nums):
+    """The kernel values of one particle on the stencil the model defines (temporary lattice of half-widths `nums` with the
+    lattice's spacing, centred at 0), in the order the model consumes them (C order: x outermost), by the documented
+    kernels: gaussian = N(mean = particle position, sigma^2 1_3) at stencil offset + particle position; covariant =
+    N(0, sigma^2 1_2) at (|offset|^2, p.offset / (gamma m)).  The harness's own scipy call, one batched evaluation."""
     from scipy.stats import multivariate_normal
     p = make_particle(d)
-    rs = [nums[0] * lat.spacing_x_, nums[1] * lat.spacing_y_, nums[2] * lat.spacing_z_]
-    tx, ty, tz = (np.linspace(-r, r, 2 * n + 1) for r, n in zip(rs, nums))
-    out = []
+    sigma, kernel = case["sigma"], case["kernel"]
+    hs = [np.float64(axis_spacing(ax)) for ax in case["lattice"]["axes"]]
+    tx, ty, tz = (np.linspace(-(n * h), n * h, 2 * n + 1) for n, h in zip(nums, hs))
+    X, Y, Z = np.meshgrid(tx, ty, tz, indexing="ij")
     with np.errstate(all="ignore"):
         if kernel == "gaussian":
             kv = multivariate_normal(mean=[p.x, p.y, p.z], cov=sigma ** 2 * np.eye(3))
+            vals = kv.pdf(np.stack([X + p.x, Y + p.y, Z + p.z], axis=-1))
         else:
             kv = multivariate_normal(mean=[0, 0], cov=sigma ** 2 * np.eye(2))
-        for xi in tx:
-            for yj in ty:
-                for zk in tz:
-                    if kernel == "gaussian":
-                        out.append(float(kv.pdf([xi + p.x, yj + p.y, zk + p.z])))
-                    else:
-                        ds = xi ** 2 + yj ** 2 + zk ** 2
-                        gamma = np.sqrt(1 + p.p_abs() ** 2 / p.mass ** 2)
-                        dv = (p.px * xi + p.py * yj + p.pz * zk) / (gamma * p.mass)
-                        out.append(float(kv.pdf([ds, dv])))
+            gamma = np.sqrt(1 + p.p_abs() ** 2 / p.mass ** 2)
+            dv = (p.px * X + p.py * Y + p.pz * Z) / (gamma * p.mass)
+            vals = kv.pdf(np.stack([X ** 2 + Y ** 2 + Z ** 2, dv], axis=-1))
+    return [float(v) for v in np.asarray(vals, dtype=float).reshape(X.shape).ravel()]
+
+
+def kernel_tables(case, nums):
+    per = (2 * nums[0] + 1) * (2 * nums[1] + 1) * (2 * nums[2] + 1)
+    out = []
+    for d in case["particles"]:
+        try:
+            t = kernel_table(case, d, nums)
+            out.append(t if len(t) == per else [float("nan")] * per)
+        except Exception:
+            out.append([float("nan")] * per)      # kernel undefined for this particle (NaN position, unset attribute, ...)
     return out
 
 
@@ -219,23 +250,18 @@ def enc_lattice(lat):
 
 
 def enc_case(case, real):
-    """driver line for a case, with the kernel values taken from the run of the real code"""
+    """driver line for a case: half-widths and kernel tables computed by the harness (never taken from the run of the code
+    under test); `how` says whether the pdf values the code was seen to evaluate agree with them"""
     nums = real["nums"]
     per = (2 * nums[0] + 1) * (2 * nums[1] + 1) * (2 * nums[2] + 1)
-    kv = real["kvals"]
+    chunks = kernel_tables(case, nums)
+    kv = real.get("kvals") or []
     n = len(case["particles"])
-    how = "recorded"
-    if len(kv) == per * n:
-        chunks = [kv[i * per:(i + 1) * per] for i in range(n)]
-    else:
-        # the code raised before/inside a kernel loop, or no longer goes through multivariate_normal
-        how = "recomputed"
-        chunks = []
-        for d in case["particles"]:
-            try:
-                chunks.append(recompute_kernel(real["lattice"], d, case["sigma"], case["kernel"], nums))
-            except Exception:
-                chunks.append([float("nan")] * per)
+    flat = [k for ks in chunks for k in ks]
+    how = "recomputed"        # the code did not evaluate scipy pdfs in a form that can be lined up: nothing to cross-check
+    if n and len(kv) == per * n and None not in kv:
+        same = all((a != a and b != b) or abs(a - b) <= 1e-9 * max(abs(a), abs(b), 1e-300) for a, b in zip(kv, flat))
+        how = "recorded" if same else "recorded-differs"
     parts = []
     for d, v, ks in zip(case["particles"], real["values"], chunks):
         kss = ";".join("-" if k != k else f2h(k) for k in ks)
@@ -255,8 +281,7 @@ def fx(v):
 def enc_gcase(case, real, chunks):
     """driver line for the GENERATED add_particle_data: the object as the constructor built it (extents, node counts,
     n_sigma), the call's arguments, the particles as the getters show them, the recorded pdf values"""
-    lat = real["lattice"]
-    ns = ",".join(f2h(float(v)) for v in (lat.n_sigma_x_, lat.n_sigma_y_, lat.n_sigma_z_))
+    ns = ",".join(f2h(float(v)) for v in (case["lattice"].get("n_sigma") or [3, 3, 3]))
     parts = []
     for seen, ks in zip(real["seen"], chunks):
         parts.append(",".join([fx(v) for v in seen] + [";".join(fx(k) for k in ks)]))
@@ -941,20 +966,23 @@ def check_contract(ctx, case, real, chunks):
             if k == k and k < 0:
                 ctx.brk("correspondence-broken", f"contract: kernel value {k!r} < 0", case=case)
                 return
-    lat = real["lattice"]
-    for name in "xyz":
-        xs = getattr(lat, f"{name}_values_")
-        if not (np.all(np.diff(xs) > 0) and xs[0] == getattr(lat, f"{name}_min_") and xs[-1] == getattr(lat, f"{name}_max_")):
-            ctx.brk("correspondence-broken", f"contract: {name}_values_ not increasing from {name}_min_ to {name}_max_", case=case)
+    for name, ax in zip("xyz", case["lattice"]["axes"]):
+        xs = np.linspace(ax[0], ax[1], ax[2])
+        if not (np.all(np.diff(xs) > 0) and xs[0] == ax[0] and xs[-1] == ax[1]):
+            ctx.brk("correspondence-broken", f"contract: np.linspace{tuple(ax)} ({name} axis) not increasing from min to max", case=case)
 
 
 ASSUMPTIONS = [
-    "C16: kernel values (scipy multivariate_normal.pdf, Gaussian and covariant formula) are a parameter of the model; "
-    "they are recorded from the pdf calls of the real add_particle_data on every case and checked to be >= 0 or NaN",
-    "C16: num = round(n_sigma*sigma/spacing) (Python round on a numpy double) is a parameter, recomputed by the harness "
-    "from the lattice's own n_sigma_*_ and spacing_*_ attributes",
+    "C16: kernel values (scipy multivariate_normal.pdf, Gaussian and covariant formula) are a parameter of the model; the "
+    "harness computes them itself (its own batched scipy call on the stencil the model defines, in the order the model consumes "
+    "them) and checks them to be >= 0 or NaN; the correspondence does not depend on HOW the code under test evaluates the kernel "
+    "(per node, batched, closed form). Where the code is seen to make one scipy pdf evaluation per stencil node in that order, "
+    "the observed values are compared with the harness's (histogram kernel-recorded / kernel-recorded-differs / "
+    "kernel-recomputed); the observation never changes a call and its absence breaks nothing",
+    "C16: num = round(n_sigma*sigma/spacing) (Python round on a numpy double) is a parameter, computed by the harness from the "
+    "case itself (n_sigma argument or 3, spacing = np.linspace(lo, hi, n)[1] - [0])",
     "C16: np.linspace is modelled (arange*step+start, last entry = stop) and compared bit for bit with numpy on every axis used; "
-    "np.argmin = first minimum; x_values_[0] == x_min_ and x_values_[-1] == x_max_ (checked per case)",
+    "np.argmin = first minimum; np.linspace(lo, hi, n) increasing from lo to hi (checked per case on numpy itself)",
     "C16: theorems are over an exact ordered field; with IEEE doubles node positions are hit only up to rounding - the repaired "
     "code absorbs that with a tolerance of 1e-9 spacing, the correspondence runs the same comparisons at Float",
     "C16: the branch `np.isnan(value_to_add) -> 0.0` is only reachable with a NaN kernel value or non-finite quantity; "
@@ -1051,6 +1079,7 @@ def correspond(ctx):
                 continue
             if step["bad"] is None:
                 check_contract(ctx, c, real, chunks)
+                ctx.count("kernel-" + how)
             if send_model:
                 s_items.append(("model", c, real))
                 s_lines.append(line)
